@@ -366,7 +366,7 @@ fn main() {
                 let mut pairs: Vec<(&str, &str, i64)> = vec![]; // (owner, spender, live allowance)
                 for _ in 0..len {
                     let now = seq(&sys.e) as i64;
-                    let k = *pick(&mut r, &[0i64, 0, 0, 0, 1, 1, 2, 5]);
+                    let k = if r.gen_ratio(1, 25) { 3000 } else { *pick(&mut r, &[0i64, 0, 0, 0, 1, 1, 2, 5]) };
                     let from = if !holders.is_empty() && r.gen_bool(0.7) { *pick(&mut r, &holders) } else { *pick(&mut r, &accts) };
                     let to = *pick(&mut r, &accts);
                     let sp = *pick(&mut r, &accts);
